@@ -2,6 +2,7 @@
 import json
 import os
 import tempfile
+import time
 from types import SimpleNamespace
 
 import numpy as np
@@ -107,7 +108,7 @@ def one_case(ctx, index, want_model=True):
     rng = ctx.rng('seq%d' % index)
     cache = rng.random() < 0.5
     system = filegen.rand_system(rng)
-    seq, nb, sysw = filegen.random_sequence(rng, system=system, use_block_cache=cache)
+    seq, nb, sysw = filegen.random_sequence(rng, system=system, use_block_cache=cache, history=True)
     sysr = filegen.rand_system(rng, default_prob=0.3)
     if nb == 0:
         ctx.count('skipped.empty')
@@ -116,26 +117,41 @@ def one_case(ctx, index, want_model=True):
     if not ok:
         ctx.count('skipped.check_timing')
         return None
-    case = {'index': index, 'blocks': nb, 'cache': cache}
+    # the options of write(): none of them may change the content (remove_duplicates stays on: the property's default)
+    sig = rng.random() < 0.8
+    ct1 = rng.random() < 0.5
+    o1 = dict(create_signature=sig, check_timing=ct1)
+    o2 = dict(create_signature=sig, check_timing=not ct1)
+    if rng.random() < 0.3:
+        o1['remove_duplicates'] = True
+    hist = getattr(seq, '_gen_history', None)
+    case = {'index': index, 'blocks': nb, 'cache': cache, 'write1': o1, 'write2': o2, 'history': hist,
+            'midwrite': bool(getattr(seq, '_gen_midwrite', False))}
+    if hist:
+        ctx.count('history.out_of_order' if hist['out_of_order'] else 'history.noncontiguous' if hist['noncontiguous'] else 'history.plain')
+    if case['midwrite']:
+        ctx.count('history.written_before_complete')
+    ctx.count('write1.check_timing_%s' % ct1)
+    ctx.count('write.signature_%s' % sig)
     blocks0 = block_snapshot(seq)
     libs0 = lib_snapshot(seq)
     with tempfile.TemporaryDirectory(prefix='pvC02') as d:
         f1, f2, f3 = (os.path.join(d, n) for n in ('a.seq', 'b.seq', 'c.seq'))
         try:
-            h1 = seq.write(f1, create_signature=True)
+            h1 = seq.write(f1, **o1)
         except AssertionError:
             ctx.count('skipped.write_assertion')
             return None
         libs1 = lib_snapshot(seq)
         try:
             blocks1 = block_snapshot(seq)
-            h2 = seq.write(f2, create_signature=True)
+            h2 = seq.write(f2, **o2)
             d1, d2 = open(f1, 'rb').read(), open(f2, 'rb').read()
             used = rng.random() < 0.5
             s2 = filegen.used_reader(rng, sysr, d) if used else pp.Sequence(sysr, use_block_cache=rng.random() < 0.5)
             ctx.count('reader.' + ('with_prior_content' if used else 'fresh'))
             s2.read(f1)
-            s2.write(f3, create_signature=True)
+            s2.write(f3, create_signature=sig)
             d3 = open(f3, 'rb').read()
         except Exception as e:  # noqa: BLE001
             k = first_diff(libs0, libs1)
@@ -152,8 +168,10 @@ def one_case(ctx, index, want_model=True):
     ok = True
     if d1 != d2 or h1 != h2:
         ok = False
-        ctx.fail('C02/write-twice-differs', case, {'first_diff_byte': next((i for i in range(min(len(d1), len(d2))) if d1[i] != d2[i]), -1),
-                                                  'len1': len(d1), 'len2': len(d2)})
+        l1, l2 = d1.decode(errors='replace').split('\n'), d2.decode(errors='replace').split('\n')
+        j = next((i for i in range(min(len(l1), len(l2))) if l1[i] != l2[i]), min(len(l1), len(l2)))
+        ctx.fail('C02/write-twice-differs', case, {'line': j, 'first': l1[j] if j < len(l1) else None,
+                                                  'second': l2[j] if j < len(l2) else None, 'len1': len(d1), 'len2': len(d2)})
     k = first_diff(blocks0, blocks1)
     if k is not None:
         ok = False
@@ -256,8 +274,8 @@ def defs_stream(ctx, want_model=True):
     n = {'quick': 60, 'thorough': 3000}[ctx.tier]
     pend = []
     for i in range(n):
-        if ctx.out_of_time():
-            break
+        if ctx.out_of_time() or (ctx.budget_s is not None and time.time() - ctx.t0 > 0.4 * ctx.budget_s):
+            break                     # leave the larger part of the time box to the sequence stream
         rng = ctx.rng('defs%d' % i)
         keys = rng.sample(filegen.DEF_KEYS[1:], rng.randint(2, 6))   # 'FOV' must be numeric (set_definition takes its max)
         defs = [(k, filegen.rand_def_value(rng)) for k in keys]
@@ -284,6 +302,70 @@ def defs_stream(ctx, want_model=True):
         flush(ctx, pend)
 
 
+# ---- ambient process state ------------------------------------------------------------------------------------------
+AMBIENTS = [
+    {'TZ': 'UTC', 'PYTHONHASHSEED': '0', 'LC_ALL': 'C', 'shift': 0.0, 'name': 'a.seq', 'sub': '.'},
+    {'TZ': 'Pacific/Kiritimati', 'PYTHONHASHSEED': '12345', 'LC_ALL': 'C.UTF-8', 'shift': 401 * 86400 + 7 * 3600.0, 'name': 'other name.v2.seq', 'sub': 'deep/er'},
+    {'TZ': 'America/Los_Angeles', 'PYTHONHASHSEED': 'random', 'LC_ALL': 'POSIX', 'shift': -(9000 * 86400 + 13 * 3600.0), 'name': 'x.seq', 'sub': 'w'},
+]
+
+
+def ambient_stream(ctx):
+    """the same sequence written in processes that differ in time zone, hash seed, locale, working directory, file
+    name and wall clock (shifted by more than a year in both directions): the bytes must not depend on any of it"""
+    import pickle
+    import subprocess
+    import sys
+    n = {'quick': 4, 'thorough': 40}[ctx.tier]
+    script = os.path.join(os.path.dirname(os.path.dirname(os.path.abspath(__file__))), 'ambient_writer.py')
+    for i in range(n):
+        if ctx.out_of_time():
+            break
+        rng = ctx.rng('ambient%d' % i)
+        seq, nb, _ = filegen.random_sequence(rng, n_blocks=rng.randint(1, 6), history=True)
+        if nb == 0:
+            continue
+        sig = rng.random() < 0.8
+        case = {'kind': 'ambient', 'index': i, 'create_signature': sig,
+                'ambients': [{k: v for k, v in a.items()} for a in AMBIENTS]}
+        with tempfile.TemporaryDirectory(prefix='pvC02amb') as d:
+            pk = os.path.join(d, 'seq.pickle')
+            with open(pk, 'wb') as f:
+                pickle.dump(seq, f)
+            here = os.path.join(d, 'parent.seq')
+            seq.write(here, create_signature=sig)
+            outs = [open(here, 'rb').read()]
+            procs = []
+            for a in AMBIENTS:
+                wd = os.path.join(d, a['sub'])
+                os.makedirs(wd, exist_ok=True)
+                env = dict(os.environ)
+                env.update({'TZ': a['TZ'], 'PYTHONHASHSEED': a['PYTHONHASHSEED'], 'LC_ALL': a['LC_ALL'], 'LANG': a['LC_ALL']})
+                out = os.path.join(wd, a['name'])
+                procs.append((a, out, subprocess.Popen([sys.executable, script, pk, a['name'], repr(a['shift']), '1' if sig else '0'],
+                                                       cwd=wd, env=env, stdout=subprocess.PIPE, stderr=subprocess.PIPE)))
+            bad = None
+            for a, out, p in procs:
+                so, se = p.communicate(timeout=300)
+                if p.returncode != 0 or not os.path.exists(out):
+                    bad = {'what': 'child failed', 'ambient': a, 'stderr': se.decode(errors='replace')[-400:]}
+                    break
+                outs.append(open(out, 'rb').read())
+        ctx.evaluated(('ambient', i))
+        ctx.count('ambient.sequences')
+        if bad:
+            ctx.fail('C02/ambient-writer-failed', case, bad)
+            continue
+        for k in range(1, len(outs)):
+            if outs[k] != outs[0]:
+                l0, lk = outs[0].decode(errors='replace').split('\n'), outs[k].decode(errors='replace').split('\n')
+                j = next((m for m in range(min(len(l0), len(lk))) if l0[m] != lk[m]), min(len(l0), len(lk)))
+                ctx.fail('C02/output-depends-on-ambient-state', case,
+                         {'ambient': AMBIENTS[k - 1], 'line': j, 'parent': l0[j] if j < len(l0) else None,
+                          'child': lk[j] if j < len(lk) else None})
+                break
+
+
 def flush(ctx, pend):
     lines = ['file.rw' + filemodel.encode_read(p['tok1'], p['sysr'])[len('file.read'):] for p in pend]
     outs = ctx.model(lines)
@@ -298,6 +380,7 @@ def flush(ctx, pend):
 
 def run(ctx):
     n_cases = {'quick': 100, 'thorough': 4000}[ctx.tier]
+    ambient_stream(ctx)
     defs_stream(ctx)
     pend = []
     for n in range(n_cases):
@@ -315,6 +398,9 @@ def run(ctx):
 
 
 def replay(ctx, case):
+    if case.get('kind') == 'ambient':
+        ambient_stream(ctx)
+        return {'case': case, 'result': 'ambient-state stream re-run; see failures'}
     if str(case.get('kind', '')).startswith('def'):
         defs_stream(ctx, want_model=False)
         return {'case': case, 'result': 'definitions stream re-run; see failures'}
